@@ -150,6 +150,14 @@ fn random_walks(r: &mut Report, n: usize, len: usize, seed: u64) {
                 let want = den(&known[q]); let got = state(o);
                 r.case("orswot.den", want == got, &|| format!("{} @r{}", desc, q), &|| format!("state {:?} want {:?}", got, want));
             }
+            // C16: the verdict on EVERY op of the history at every replica is "an add must not skip a counter of its actor"
+            for (q, o) in reps.iter().enumerate() {
+                for (j, op) in all.iter().enumerate() {
+                    let want_ok = match op { Op::Add { dot, .. } => dot.counter <= o.clock().get(&dot.actor) + 1, Op::Rm { .. } => true };
+                    let got = o.validate_op(op);
+                    r.case("orswot.validate_op_verdict", got.is_ok() == want_ok, &|| format!("{} @r{} validate_op(op{})", desc, q, j), &|| format!("got {:?}, want ok = {}", got, want_ok));
+                }
+            }
             for a in 0..3 { for b in 0..a {
                 let ka: BTreeSet<String> = known[a].iter().map(|o| format!("{:?}", o)).collect();
                 let kb: BTreeSet<String> = known[b].iter().map(|o| format!("{:?}", o)).collect();
